@@ -189,3 +189,16 @@ Definition all_mine (c : config) : list entity := flat_map mine (threads c).
 (* the sequential replay of the linearisation history on the faithful
    allocator model *)
 Definition lin_ops (c : config) : list aop := map snd (lin c).
+
+(* Side condition on the handles a program may name (the hypothesis of the
+   theorems; checked on every case by the driver).  [h_stable]: the handle
+   does not carry the *next* generation of a dead, not yet re-raised index --
+   such a forged "handle of the future" would change from dead to alive when
+   another thread's creation reaches raised.add_atomic.  [hinit_okb]: index
+   below the counter, positive generation, stable: true of every handle the
+   allocator has issued. *)
+Definition h_stable (a : astate) (e : entity) : bool :=
+  negb ((gen_at a (fst e) <? 0)%Z && (snd e =? 1 - gen_at a (fst e))%Z && negb (NS.mem (fst e) (raised a))).
+
+Definition hinit_okb (a : astate) (e : entity) : bool :=
+  N.ltb (fst e) (max_id a) && Z.leb 1 (snd e) && h_stable a e.
